@@ -3,8 +3,8 @@ package checks
 import (
 	"context"
 	"fmt"
-	"math"
 	"io"
+	"math"
 	"strings"
 	"time"
 
@@ -47,8 +47,14 @@ var c11U4 = func() c11Universe {
 	return c11Universe{"u4", []ref.Value{ref.Int(1), ref.Float(1.5), ref.Arr(big), ref.Arr(ref.Str("x"), big), ref.Arr(big, ref.Int(1)), big, ref.Arr(ref.Arr(big))}}
 }()
 
+// u5: keys that are equal for the map (one entry) but not the same value: 1 / 1.0, 0 / 0.0 / -0.0 - an update through the
+// other spelling keeps the key the entry was inserted under
+var c11U5 = c11Universe{"u5", []ref.Value{ref.Int(1), ref.Float(1.0), ref.Float(0.0), ref.Float(math.Copysign(0, -1)), ref.Int(2), ref.Str("a"), ref.Int(0)}}
+
 func c11Univ(name string) *c11Universe {
 	switch name {
+	case "u5":
+		return &c11U5
 	case "u4":
 		return &c11U4
 	case "u3":
@@ -62,12 +68,13 @@ func c11Univ(name string) *c11Universe {
 }
 
 // an operation, encoded as a short string so that histories serialise trivially:
-//   L<k...>       literal construction with keys in that order (value = 1, duplicate keys allowed; later wins)
-//   S<k><v>       Set(key k, value v)
-//   D<k>          Delete(key k)
-//   A<idx>        Append(operand #idx)
-//   R             Rest
-//   G<l><r>       Range(l, r)
+//
+//	L<k...>       literal construction with keys in that order (value = 1, duplicate keys allowed; later wins)
+//	S<k><v>       Set(key k, value v)
+//	D<k>          Delete(key k)
+//	A<idx>        Append(operand #idx)
+//	R             Rest
+//	G<l><r>       Range(l, r)
 type c11Op string
 
 func c11AppendOperands(u *c11Universe) []ref.Value {
@@ -95,11 +102,11 @@ type c11Kept struct {
 }
 
 type c11State struct {
-	kept []c11Kept // earlier values of this history that no in-place operation was applied to since: they must stay intact
-	u    *c11Universe
-	impl object.Object // object.Map normally; may degrade (nil/Null) after Rest
+	kept  []c11Kept // earlier values of this history that no in-place operation was applied to since: they must stay intact
+	u     *c11Universe
+	impl  object.Object // object.Map normally; may degrade (nil/Null) after Rest
 	model ref.Value
-	ok   bool // still a map
+	ok    bool // still a map
 }
 
 // apply performs op on both the real map and the model. Returns a violation class if an
@@ -507,7 +514,7 @@ func c11SrcOps(u *c11Universe) []c11SrcOp {
 	key := func(i int) ref.Value { return ks[i%len(ks)] }
 	ops = append(ops, c11SrcOp{"kv = " + src(2) + "; func ins() { m[kv] = 6 }; ins(); kv = " + src(4), func(m ref.Value) (ref.Value, bool) { return ref.MapSet(m, key(2), ref.Int(6)), true }})
 	ops = append(ops, c11SrcOp{"kv = " + src(0) + "; func() { func() { m[kv] = 5; kv = " + src(3) + " }() }()", func(m ref.Value) (ref.Value, bool) { return ref.MapSet(m, key(0), ref.Int(5)), true }})
-	ops = append(ops, c11SrcOp{"insp = func(kp) { m[kp] = 4; kp = " + src(1) + " }; insp(" + src(6) + ")", func(m ref.Value) (ref.Value, bool) { return ref.MapSet(m, key(6), ref.Int(4)), true }})
+	ops = append(ops, c11SrcOp{"insp = func(kp) { m[kp] = 4 }; insp(" + src(6) + "); insp = 0", func(m ref.Value) (ref.Value, bool) { return ref.MapSet(m, key(6), ref.Int(4)), true }})
 	ops = append(ops, c11SrcOp{"kv = " + src(2) + "; dl = () => del(m[kv]); dl(); kv = " + src(0), func(m ref.Value) (ref.Value, bool) { r, _ := ref.MapDelete(m, key(2)); return r, true }})
 	ops = append(ops, c11SrcOp{"kv = " + src(5) + "; func() { m = m + {kv: 3}; kv = " + src(1) + " }()", func(m ref.Value) (ref.Value, bool) { return ref.MapSet(m, key(5), ref.Int(3)), true }})
 	ops = append(ops, c11SrcOp{"m = m + {}", func(m ref.Value) (ref.Value, bool) { return m, true }})
@@ -923,7 +930,7 @@ func c11Merge(c *core.Ctx) int {
 
 func runC11(c *core.Ctx) {
 	var bounds []string
-	us := []*c11Universe{&c11U1, &c11U3, &c11U4}
+	us := []*c11Universe{&c11U1, &c11U3, &c11U4, &c11U5}
 	srcDepth := 3
 	if !c.Quick() {
 		us = append(us, &c11U2)
@@ -950,9 +957,9 @@ func runC11(c *core.Ctx) {
 
 func init() {
 	core.Register(&core.Check{
-		ID:    "C11",
-		Level: "model_checking",
-		Rule: "explicit-state search over one real map value: universe of 7 mixed-type keys x values {0,1}; operations literal construction (every ordered selection of <=3 keys, sorted/reverse for larger subsets, duplicate keys), Set, Delete, Append (empty, singletons, a 5-pair and a 2-pair map), Rest, Range(l,r) for all l<=r; BFS with merging on key = sorted contents + concrete Go type of the value; plus all source-level histories (m[k]=v, del, +, rest, slices, literals) up to depth 3/4 on a session variable. A second family explores every history of <=3 operations from the large literals WITHOUT merging (storage sharing between a map and the maps derived from it is not in the state key) and re-checks every earlier value of the history after each non-mutating operation; a third merges maps of sizes {0..100}^2 whose common keys are equal but not identical (1 / 1.0, 0 / -0.0); a fourth universe has keys nesting a large array inside small ones. On every state: Len, Get for every key, Inspect, First/Rest iteration, Elements, equality with freshly built maps, inequality with one-pair neighbours, persistence of non-mutating operations; through source: len, println, lookup, for-iteration, first/rest walk, ==, keys(). Non-trivial = history of at least one operation.",
+		ID:       "C11",
+		Level:    "model_checking",
+		Rule:     "explicit-state search over one real map value: universe of 7 mixed-type keys x values {0,1}; operations literal construction (every ordered selection of <=3 keys, sorted/reverse for larger subsets, duplicate keys), Set, Delete, Append (empty, singletons, a 5-pair and a 2-pair map), Rest, Range(l,r) for all l<=r; BFS with merging on key = sorted contents + concrete Go type of the value; plus all source-level histories (m[k]=v, del, +, rest, slices, literals) up to depth 3/4 on a session variable. A second family explores every history of <=3 operations from the large literals WITHOUT merging (storage sharing between a map and the maps derived from it is not in the state key) and re-checks every earlier value of the history after each non-mutating operation; a third merges maps of sizes {0..100}^2 whose common keys are equal but not identical (1 / 1.0, 0 / -0.0); a fourth universe has keys nesting a large array inside small ones. On every state: Len, Get for every key, Inspect, First/Rest iteration, Elements, equality with freshly built maps, inequality with one-pair neighbours, persistence of non-mutating operations; through source: len, println, lookup, for-iteration, first/rest walk, ==, keys(). Non-trivial = history of at least one operation.",
 		Assume:   []string{"merged states have equal futures: operations read only contents and representation, both in the key", "value universe {0,1,7,8,9}"},
 		QuickCap: 100 * time.Second, ThoroughCap: 15 * time.Minute,
 		Run: runC11,
